@@ -124,6 +124,43 @@ Definition c16_ordering (a b : comparison) : string :=
     [("eq", e); ("cmp", c); ("ceq", e); ("ccmp", c);
      ("oeq", oe); ("ocmp", oc); ("coeq", oe); ("cocmp", oc); ("foeq", oe); ("focmp", oc)].
 
+(** the harness's user type [Pt { x: i8, name: &str, tag: Option<u8> }] with [impl_cmp!]:
+    const_eq = const_eq!(x) && const_eq!(name) && const_eq!(tag);
+    const_cmp = try_equal!(const_cmp!(x)); try_equal!(const_cmp!(name)); try_equal!(const_cmp!(tag)) *)
+Definition pt : Type := (Z * list Z * option Z)%type.
+Definition pt_x (p : pt) : Z := fst (fst p).
+Definition pt_name (p : pt) : list Z := snd (fst p).
+Definition pt_tag (p : pt) : option Z := snd p.
+Definition pt_eq (p q : pt) : option bool :=
+  lazy_and_m (lazy_and_m (Some (const_eq_prim_m (pt_x p) (pt_x q)))
+                         (const_eq_str_m (pt_name p) (pt_name q)))
+             (option_eq_m prim_eq_o (pt_tag p) (pt_tag q)).
+Definition pt_cmp (p q : pt) : option comparison :=
+  try_equal_m (Some (const_cmp_prim_m (pt_x p) (pt_x q)))
+    (try_equal_m (const_cmp_str_m (pt_name p) (pt_name q))
+       (try_equal_m (option_cmp_m prim_cmp_o (pt_tag p) (pt_tag q)) (Some Eq))).
+Definition as_opt (v : val) : option Z :=
+  match as_list v with [] => None | x :: _ => Some (as_Z x) end.
+
+Definition c16_user (p q : pt) : string :=
+  let ls := [p; q] in
+  let rs := [p; p] in
+  let keyx_eq (a b : pt) := prim_eq_o (pt_x a) (pt_x b) in
+  let keyx_cmp (a b : pt) := prim_cmp_o (pt_x a) (pt_x b) in
+  let keyn_cmp (a b : pt) := const_cmp_str_m (pt_name a) (pt_name b) in
+  show_fields
+    [("ceq", sh_ob (pt_eq p q)); ("ccmp", sh_oo (pt_cmp p q));
+     ("feq", sh_ob (eq_for_slice_m pt_eq ls rs)); ("fcmp", sh_oo (cmp_for_slice_m pt_cmp ls rs));
+     ("fkeq", sh_ob (eq_for_slice_m keyx_eq ls rs)); ("fkcmp", sh_oo (cmp_for_slice_m keyx_cmp ls rs));
+     ("foeq", four (option_eq_m pt_eq) sh_ob p q); ("focmp", four (option_cmp_m pt_cmp) sh_oo p q);
+     ("fokcmp", four (option_cmp_m keyn_cmp) sh_oo p q)].
+
+(** arrays [T; 2], by value and behind references: coerced to slices *)
+Definition c16_array (l r : list Z) : string :=
+  let e := sh_ob (const_eq_slice_m l r) in
+  let c := sh_oo (const_cmp_slice_m l r) in
+  show_fields [("ceq", e); ("ccmp", c); ("rceq", e); ("rccmp", c)].
+
 Definition as_seqs (v : val) : list (list Z) := map as_bytes (as_list v).
 
 Definition c16_run (fam : string) (args : list val) : option string :=
@@ -149,6 +186,14 @@ Definition c16_run (fam : string) (args : list val) : option string :=
     end
   else if String.eqb fam "c16.slice_u8_alias" then
     match args with [l; r] => Some (c16_slice_alias (as_bytes l) (as_bytes r)) | _ => None end
+  else if String.eqb fam "c16.array" then
+    match args with [_; l; r] => Some (c16_array (as_bytes l) (as_bytes r)) | _ => None end
+  else if String.eqb fam "c16.user" then
+    match args with
+    | [x1; n1; t1; x2; n2; t2] =>
+        Some (c16_user (as_Z x1, as_bytes n1, as_opt t1) (as_Z x2, as_bytes n2, as_opt t2))
+    | _ => None
+    end
   else if String.eqb fam "c16.ordering" then
     match args with [a; b] => Some (c16_ordering (as_ordering a) (as_ordering b)) | _ => None end
   else if String.eqb fam "c16.laws" then
